@@ -7,6 +7,7 @@ mod props;
 mod runner;
 mod scen_a;
 mod scen_d;
+mod scen_e;
 mod variants;
 
 fn usage() -> i32 {
@@ -23,6 +24,18 @@ fn main() {
         Some("replay") if args.len() >= 2 => driver::replay_main(&args[1]),
         Some("worker") if args.len() >= 9 => driver::worker_main(&args[1..]),
         Some("exec-trace") if args.len() >= 5 => driver::exec_trace_main(&args[1..]),
+        Some("show") if args.len() >= 2 => {
+            // human-readable view of a replay file: the violation and the event log without the raw draws
+            let v: serde_json::Value = serde_json::from_slice(&std::fs::read(&args[1]).expect("read")).expect("json");
+            println!("{} / {} / {}: {}\n{}", v["property"], v["batch"], v["tier"], v["class"], v["detail"].as_str().unwrap_or(""));
+            for l in v["log"].as_array().cloned().unwrap_or_default() {
+                let l = l.as_str().unwrap_or("").to_string();
+                if !l.starts_with("draw ") {
+                    println!("  {l}");
+                }
+            }
+            0
+        }
         Some("list") => {
             for p in props::all() {
                 println!("{} {} batches={}", p.id, p.level, p.batches.iter().map(|b| b.name).collect::<Vec<_>>().join(","));
